@@ -10,29 +10,6 @@ namespace Journal
 
 variable {κ : Type}
 
-/-- the environment's part of one `wait_for_next_task` call -/
-structure WaitIn (κ : Type) where
-  fid : Nat := 0
-  inflight : List κ := []
-  done : List κ := []
-  timedOut : Bool := false
-  choice : Option κ := none
-deriving Repr
-
-/-- the completion a call hands to the control loop, if any -/
-def WaitOut.returned : WaitOut κ → Option κ
-  | .replayed k => some k
-  | .fresh k _ => some k
-  | _ => none
-
-/-- the completion a call INSERTed, if any -/
-def WaitOut.freshKey : WaitOut κ → Option κ
-  | .fresh k _ => some k
-  | _ => none
-
-def returnedKeys (rs : List (WaitRes κ)) : List κ := rs.filterMap (·.out.returned)
-def freshKeys (rs : List (WaitRes κ)) : List κ := rs.filterMap (·.out.freshKey)
-
 /-- what a life observes = first `_replay_index` entries of its in-memory journal -/
 def Obs (a : Adapter κ) (rets : List κ) : Prop :=
   rets = (a.tj.entries.getD []).take a.tj.idx ∧ a.tj.idx ≤ (a.tj.entries.getD []).length
@@ -247,22 +224,6 @@ theorem waitNext_good (a : Adapter κ) (db : Db κ) (run : String) (fid : Nat)
   · intro run' hne; rw [g4 run' hne]; exact runRows_congr db db1 run' hrows
   · intro k s h; rw [g5 k s h, hl1]
   · intro hf ho; exact g6 hf (by simpa [Obs] using ho)
-
-/-- one process life: consecutive calls of one adapter -/
-def runCalls (run : String) : Adapter κ → Db κ → List (WaitIn κ) → Adapter κ × Db κ × List (WaitRes κ)
-  | a, db, [] => (a, db, [])
-  | a, db, i :: is =>
-    let r := waitNext a db run i.fid i.inflight i.done i.timedOut i.choice
-    let r' := runCalls run r.1 r.2.1 is
-    (r'.1, r'.2.1, r.2.2 :: r'.2.2)
-
-/-- several lives of the same run: each starts with a fresh adapter on the surviving table -/
-def runLives (run : String) : Db κ → List (List (WaitIn κ)) → Db κ × List (WaitRes κ)
-  | db, [] => (db, [])
-  | db, l :: ls =>
-    let r := runCalls run {} db l
-    let r' := runLives run r.2.1 ls
-    (r'.1, r.2.2 ++ r'.2)
 
 omit [DecidableEq κ] in
 theorem obs_load (a : Adapter κ) (db : Db κ) (run : String) (rets : List κ) (pd : Bool) (h : Obs a rets) :
